@@ -5,6 +5,7 @@ package racepass
 
 import (
 	"fmt"
+	"strings"
 	"sync"
 	"testing"
 
@@ -15,7 +16,8 @@ var sqlIn = []string{"", "1", "foo", "1 union select 1", "1' or '1'='1", "1 unio
 	"/*!*/", "`if`", "@@version", "1 and 1=1", "a not in (1)", "1 -- x", "1#\n2", "\"a\" or \"b\"", "'", "1 union/**/select 2", "rock' and roll", "foo\" and bar"}
 
 var xssIn = []string{"", "<script>", "</a", "</a ", "<a href=javascript:alert(1)>", "onerror=x", "' onclick=1", "<!doctype", "<![CDATA[x]]>", "<%x%>",
-	"plain text", "</>", "<a/b=c>", "x' ", "\" href=data:x", "<!-- ` -->", "<b", "</script", "<svt>", "x", "<a href=&#106;avascript:x>", "onclick"}
+	"plain text", "</>", "<a/b=c>", "x' ", "\" href=data:x", "<!-- ` -->", "<b", "</script", "<svt>", "x", "<a href=&#106;avascript:x>", "onclick",
+	"<script>alert(1)</script>" + strings.Repeat("a", 70000), "<!doctype html>"}
 
 func one(i int) string {
 	if i < len(sqlIn) {
